@@ -48,6 +48,7 @@ Lemma llen_map {A B} (f : A -> B) l : llen (map f l) = llen l.
 Proof. unfold llen. rewrite map_length. reflexivity. Qed.
 
 Ltac ll :=
+  unfold byte, label in *;
   repeat first [rewrite llen_cons in * | rewrite llen_app in * | rewrite llen_map in *];
   repeat match goal with
          | |- context [@llen ?A (@nil ?B)] => change (@llen A (@nil B)) with 0
@@ -296,7 +297,7 @@ Proof. reflexivity. Qed.
 Lemma utf8_lower s : map lower (utf8 s) = utf8 (map lower s).
 Proof.
   induction s as [|c s IH]; [reflexivity|].
-  cbn [map]. rewrite !utf8_cons, map_app, IH, utf8_char_lower. reflexivity.
+  cbn [map]. rewrite !utf8_cons, map_app. f_equal; [apply utf8_char_lower | exact IH].
 Qed.
 
 Lemma utf8_nil_inv s : utf8 s = [] -> s = [].
@@ -419,4 +420,516 @@ Proof.
   induction s as [|x t IH]; cbn [map split_on]; [reflexivity|].
   rewrite lower_eqb_46, IH. destruct (N.eqb x 46); [reflexivity|].
   destruct (split_on 46 t); reflexivity.
+Qed.
+
+(* ================= from_dotted_string ================= *)
+
+Lemma label_try_from_some os l : label_try_from os = Some l -> l = map lower os /\ llen os <= 63.
+Proof.
+  unfold label_try_from, LABEL_MAX_LEN. destruct (N.ltb_spec 63 (llen os)) as [H|H]; [discriminate|].
+  intro E; inversion E; auto.
+Qed.
+
+Lemma label_try_from_ok os : llen os <= 63 -> label_try_from os = Some (map lower os).
+Proof.
+  intro H. unfold label_try_from, LABEL_MAX_LEN. destruct (N.ltb_spec 63 (llen os)); [lia|reflexivity].
+Qed.
+
+Lemma label_case_insensitive os os' :
+  map lower os = map lower os' -> label_try_from os = label_try_from os'.
+Proof.
+  intro H. unfold label_try_from.
+  assert (Hl : llen os = llen os') by (rewrite <- (llen_map lower os), H; apply llen_map).
+  unfold byte in *. rewrite Hl, H. reflexivity.
+Qed.
+
+Lemma dotted_chunks_some chunks : forall ls, dotted_chunks chunks = Some ls ->
+  ls = map lab chunks /\ Forall (fun c => llen (utf8 c) <= 63) chunks.
+Proof.
+  induction chunks as [|c rest IH]; intros ls H; cbn [dotted_chunks] in H.
+  - inversion H. split; [reflexivity|constructor].
+  - destruct (label_is_empty c && negb (is_nil rest)); [discriminate|].
+    destruct (label_try_from (utf8 c)) as [l|] eqn:El; [|discriminate].
+    destruct (dotted_chunks rest) as [ls'|]; [|discriminate].
+    inversion H; subst ls. apply label_try_from_some in El as [-> Hlen].
+    destruct (IH ls' eq_refl) as [-> Hrest]. split; [reflexivity|constructor; assumption].
+Qed.
+
+Lemma dotted_chunks_intro cs :
+  Forall (fun c => c <> [] /\ llen (utf8 c) <= 63) cs ->
+  dotted_chunks (cs ++ [[]]) = Some (map lab cs ++ [[]]).
+Proof.
+  induction 1 as [|c cs [Hc Hl] _ IH].
+  - reflexivity.
+  - cbn [app dotted_chunks map]. destruct c as [|x c]; [exfalso; apply Hc; reflexivity|].
+    cbn [label_is_empty andb]. rewrite (label_try_from_ok _ Hl), IH. reflexivity.
+Qed.
+
+Lemma dotjoin_not_dot cs : Forall (fun c : list N => c <> []) cs -> dotjoin cs <> [46].
+Proof.
+  intros H E. destruct cs as [|c cs]; [discriminate|].
+  apply Forall_cons_iff in H as [Hc _]. unfold dotjoin in E. cbn [map concat] in E.
+  destruct c as [|x [|y c]]; [apply Hc; reflexivity|discriminate|discriminate].
+Qed.
+
+Lemma leqb_false a b : a <> b -> leqb a b = false.
+Proof. intro H. destruct (leqb a b) eqn:E; [|reflexivity]. apply leqb_eq in E. contradiction. Qed.
+
+Lemma from_dotted_nondot s : s <> [46] ->
+  from_dotted_string s = match dotted_chunks (split_on 46 s) with
+                         | Some ls => from_labels ls
+                         | None => None
+                         end.
+Proof. intro H. unfold from_dotted_string. rewrite (leqb_false _ _ H). reflexivity. Qed.
+
+Definition chunk_ok (c : list N) : Prop := c <> [] /\ ~ In 46 c /\ llen (utf8 c) <= 63.
+
+(* accepted text other than "." *)
+Lemma dotted_inv s n : s <> [46] -> from_dotted_string s = Some n ->
+  exists cs, split_on 46 s = cs ++ [[]] /\ s = dotjoin cs /\ Forall chunk_ok cs
+             /\ labels n = map lab cs ++ [[]] /\ nlen n = sum_lens (labels n) /\ nlen n <= 255.
+Proof.
+  intros Hs H. rewrite from_dotted_nondot in H by assumption.
+  destruct (dotted_chunks (split_on 46 s)) as [ls|] eqn:Ec; [|discriminate].
+  apply dotted_chunks_some in Ec as [-> Hlen].
+  apply from_labels_inv in H as (Hl & Hn & Hsum & front & Hfront & Hne).
+  destruct (split_on 46 s) as [|c0 r0] eqn:Esplit; [exfalso; exact (split_on_ne 46 s Esplit)|].
+  rewrite <- Esplit in *. clear c0 r0 Esplit.
+  assert (Hex : exists cs last, split_on 46 s = cs ++ [last]).
+  { destruct (split_on 46 s) as [|c0 r0] eqn:E; [exfalso; exact (split_on_ne 46 s E)|].
+    exists (removelast (c0 :: r0)), (last (c0 :: r0) []). apply app_removelast_last. discriminate. }
+  destruct Hex as (cs & last & Ecs). rewrite Ecs in *.
+  rewrite map_app in Hfront. cbn [map] in Hfront. apply app_inj_tail in Hfront as [Hfront Hlast].
+  apply lab_nil_inv in Hlast. subst last.
+  exists cs. split; [reflexivity|].
+  pose proof (join_dots_split s) as Hj. rewrite Ecs, join_dots_snoc_nil in Hj.
+  split; [symmetry; exact Hj|].
+  pose proof (split_on_all_nodot s) as Hnd. rewrite Ecs in Hnd. apply Forall_app in Hnd as [Hnd _].
+  apply Forall_app in Hlen as [Hlen _].
+  split; [|rewrite Hl, Hn; rewrite map_app in *; cbn [map] in *; repeat split; try assumption; reflexivity].
+  rewrite Forall_forall in *. intros c Hc. split; [|split; [exact (Hnd c Hc) | exact (Hlen c Hc)]].
+  intros ->. apply (Hne (lab [])); [|reflexivity]. rewrite <- Hfront. apply in_map with (f := lab) in Hc. exact Hc.
+Qed.
+
+Lemma dotted_intro cs n : Forall chunk_ok cs ->
+  labels n = map lab cs ++ [[]] -> nlen n = sum_lens (labels n) -> nlen n <= 255 ->
+  from_dotted_string (dotjoin cs) = Some n.
+Proof.
+  intros Hcs Hl Hn H255.
+  assert (Hne : Forall (fun c : list N => c <> []) cs)
+    by (rewrite Forall_forall in *; intros c Hc; apply (Hcs c Hc)).
+  rewrite from_dotted_nondot by (apply dotjoin_not_dot; assumption).
+  rewrite <- (app_nil_r (dotjoin cs)), split_on_dotjoin.
+  2: { rewrite Forall_forall in *. intros c Hc. apply (Hcs c Hc). }
+  2: { intros []. }
+  rewrite dotted_chunks_intro.
+  2: { rewrite Forall_forall in *. intros c Hc. destruct (Hcs c Hc) as (? & ? & ?). auto. }
+  destruct n as [ls len]. cbn [labels nlen] in *. subst ls len.
+  apply from_labels_intro; [|assumption].
+  apply Forall_map. rewrite Forall_forall in *. intros c Hc. apply lab_ne, Hne, Hc.
+Qed.
+
+Lemma dotted_complete s n :
+  Forall scalar s -> (from_dotted_string s = Some n <-> dotted_spec s n).
+Proof.
+  intros _. split.
+  - intro H. destruct (list_eq_dec N.eq_dec s [46]) as [->|Hs].
+    + left. split; [reflexivity|]. change (from_dotted_string [46]) with (Some root_domain) in H. congruence.
+    + right. destruct (dotted_inv s n Hs H) as (cs & _ & Hj & Hok & Hl & Hn & H255).
+      exists cs. repeat split; assumption.
+  - intros [[-> ->]|(cs & -> & Hok & Hl & Hn & H255)]; [reflexivity|].
+    apply dotted_intro; assumption.
+Qed.
+
+Lemma wf_name_intro front len :
+  Forall (fun l => l <> [] /\ wf_label l) front -> len = sum_lens (front ++ [[]]) -> len <= 255 ->
+  wf_name {| labels := front ++ [[]]; nlen := len |}.
+Proof.
+  intros Hf -> H. split; [|reflexivity]. exists front. auto.
+Qed.
+
+Lemma root_wf : wf_name root_domain.
+Proof. apply (wf_name_intro [] 1); [constructor|reflexivity|lia]. Qed.
+
+Lemma dotjoin_scalar cs : Forall scalar (dotjoin cs) -> Forall (Forall scalar) cs.
+Proof.
+  unfold dotjoin. induction cs as [|c cs IH]; cbn [map concat]; intro H; [constructor|].
+  apply Forall_app in H as [H1 H2]. apply Forall_app in H1 as [H1 _].
+  constructor; [assumption|apply IH; assumption].
+Qed.
+
+Lemma dotted_wf s n : Forall scalar s -> from_dotted_string s = Some n -> wf_name n.
+Proof.
+  intros Hsc H. destruct (list_eq_dec N.eq_dec s [46]) as [->|Hs].
+  - change (from_dotted_string [46]) with (Some root_domain) in H. inversion H. apply root_wf.
+  - destruct (dotted_inv s n Hs H) as (cs & _ & Hj & Hok & Hl & Hn & H255).
+    destruct n as [ls len]. cbn [labels nlen] in *. subst ls.
+    apply wf_name_intro; [|assumption|assumption].
+    rewrite Hj in Hsc. apply dotjoin_scalar in Hsc.
+    apply Forall_map. rewrite Forall_forall in *. intros c Hc.
+    destruct (Hok c Hc) as (Hne & _ & Hlen). split; [apply lab_ne; assumption|].
+    apply lab_wf; [apply Hsc, Hc | assumption].
+Qed.
+
+(* ---- case insensitivity ---- *)
+
+Lemma leqb_lower_dot s : leqb (map lower s) [46] = leqb s [46].
+Proof.
+  destruct s as [|x [|y t]]; cbn [map leqb]; try reflexivity.
+  - rewrite lower_eqb_46. reflexivity.
+  - rewrite !andb_false_r. reflexivity.
+Qed.
+
+Lemma dotted_chunks_lower chunks : dotted_chunks (map (map lower) chunks) = dotted_chunks chunks.
+Proof.
+  induction chunks as [|c rest IH]; [reflexivity|].
+  cbn [map dotted_chunks]. rewrite IH.
+  assert (E1 : label_is_empty (map lower c) = label_is_empty c) by (destruct c; reflexivity).
+  assert (E2 : is_nil (map (map lower) rest) = is_nil rest) by (destruct rest; reflexivity).
+  assert (E3 : label_try_from (utf8 (map lower c)) = label_try_from (utf8 c)).
+  { apply label_case_insensitive. rewrite <- utf8_lower. apply map_lower_idem. }
+  rewrite E1, E2, E3. reflexivity.
+Qed.
+
+Lemma from_dotted_lower s : from_dotted_string (map lower s) = from_dotted_string s.
+Proof.
+  unfold from_dotted_string. rewrite leqb_lower_dot, split_on_lower, dotted_chunks_lower. reflexivity.
+Qed.
+
+Lemma dotted_case_insensitive s s' :
+  same_modulo_case s s' -> from_dotted_string s = from_dotted_string s'.
+Proof.
+  unfold same_modulo_case. intro H. rewrite <- (from_dotted_lower s), H. apply from_dotted_lower.
+Qed.
+
+(* ================= to_dotted_string / round trip ================= *)
+
+Definition good_front (front : list label) : Prop := Forall (fun l => l <> [] /\ wf_label l) front.
+
+Lemma good_front_nonempty front : good_front front -> Forall nonempty front.
+Proof. unfold good_front. rewrite !Forall_forall. intros H l Hl. apply (H l Hl). Qed.
+
+Lemma good_front_wf front : good_front front -> Forall wf_label front.
+Proof. unfold good_front. rewrite !Forall_forall. intros H l Hl. apply (H l Hl). Qed.
+
+Lemma wf_name_dest n : wf_name n ->
+  exists front, n = {| labels := front ++ [[]]; nlen := sum_lens (front ++ [[]]) |}
+                /\ good_front front /\ sum_lens (front ++ [[]]) <= 255.
+Proof.
+  destruct n as [ls len]. intros [(front & Hls & Hf & Hs) Hn]. cbn [labels nlen] in *. subst ls len.
+  exists front. auto.
+Qed.
+
+Lemma to_dotted_nonroot front len : front <> [] -> Forall nonempty front ->
+  to_dotted_string {| labels := front ++ [[]]; nlen := len |} = dotjoin front.
+Proof.
+  intros Hne Hf. unfold to_dotted_string.
+  assert (E : is_root {| labels := front ++ [[]]; nlen := len |} = false).
+  { destruct front as [|l f]; [contradiction|]. apply Forall_cons_iff in Hf as [Hl _].
+    unfold is_root. cbn [labels app]. destruct l; [exfalso; apply Hl; reflexivity|].
+    cbn [label_is_empty]. apply andb_false_r. }
+  rewrite E. cbn [labels]. apply join_dots_snoc_nil.
+Qed.
+
+Definition ascii_label (l : label) : Prop := Forall (fun b => b < 128 /\ b <> 46) l.
+
+Lemma map_lab_ascii front : Forall wf_label front -> Forall ascii_label front -> map lab front = front.
+Proof.
+  induction 1 as [|l front Hl _ IH]; intro Ha; [reflexivity|].
+  apply Forall_cons_iff in Ha as [Hal Ha]. cbn [map]. rewrite IH by assumption.
+  rewrite lab_ascii by assumption. reflexivity.
+Qed.
+
+Lemma ascii_label_nodot l : ascii_label l -> nodot l.
+Proof.
+  unfold ascii_label, nodot. rewrite Forall_forall. intros H Hin. destruct (H 46 Hin) as [_ Hne]. apply Hne; reflexivity.
+Qed.
+
+Lemma ascii_label_utf8 l : ascii_label l -> utf8 l = l.
+Proof.
+  intro H. apply utf8_ascii. unfold ascii_label in H. rewrite Forall_forall in *. intros b Hb. apply (H b Hb).
+Qed.
+
+Lemma dotted_roundtrip n :
+  wf_name n -> ascii_nodot n -> from_dotted_string (to_dotted_string n) = Some n.
+Proof.
+  intros Hwf Ha. destruct (wf_name_dest n Hwf) as (front & -> & Hf & Hs).
+  unfold ascii_nodot in Ha. cbn [labels] in Ha. apply Forall_app in Ha as [Ha _].
+  fold ascii_label in Ha.
+  destruct front as [|l0 f0] eqn:Ef; [reflexivity|]. rewrite <- Ef in *.
+  rewrite to_dotted_nonroot; [|rewrite Ef; discriminate|apply good_front_nonempty; assumption].
+  apply dotted_intro; cbn [labels nlen]; [| |reflexivity|assumption].
+  - unfold good_front in Hf. rewrite Forall_forall in *. intros c Hc.
+    destruct (Hf c Hc) as [Hne [Hlen _]]. specialize (Ha c Hc).
+    split; [assumption|]. split; [apply ascii_label_nodot; assumption|].
+    rewrite ascii_label_utf8; assumption.
+  - rewrite map_lab_ascii; [reflexivity|apply good_front_wf; assumption|assumption].
+Qed.
+
+(* ================= from_relative_dotted_string ================= *)
+
+Definition starts_dot (l : list N) : bool := match l with 46 :: _ => true | _ => false end.
+
+Lemma starts_dot_cons b t : b <> 46 -> starts_dot (b :: t) = false.
+Proof.
+  intro H. unfold starts_dot.
+  destruct b as [|p]; [reflexivity|].
+  repeat (destruct p as [p|p|]; try reflexivity; try (exfalso; apply H; reflexivity)).
+Qed.
+
+Lemma match_dot {T} (l : list N) (A B : T) :
+  match l with 46 :: _ => A | _ => B end = if starts_dot l then A else B.
+Proof.
+  destruct l as [|b t]; [reflexivity|].
+  destruct (N.eq_dec b 46) as [->|Hb]; [reflexivity|].
+  rewrite (starts_dot_cons b t Hb).
+  destruct b as [|p]; [reflexivity|].
+  repeat (destruct p as [p|p|]; try reflexivity; try (exfalso; apply Hb; reflexivity)).
+Qed.
+
+Lemma small_scalar l : Forall small l -> Forall scalar l.
+Proof.
+  unfold small, scalar. intro H. rewrite Forall_forall in *. intros b Hb. specialize (H b Hb). lia.
+Qed.
+
+Lemma dotjoin_small front : Forall wf_label front -> Forall small (dotjoin front).
+Proof.
+  unfold dotjoin. induction 1 as [|l front [_ Hl] _ IH]; cbn [map concat]; [constructor|].
+  apply Forall_app. split; [|assumption]. apply Forall_app. split.
+  - rewrite Forall_forall in *. intros b Hb. apply (Hl b Hb).
+  - constructor; [unfold small; lia|constructor].
+Qed.
+
+Lemma to_dotted_scalar o : wf_name o -> Forall scalar (to_dotted_string o).
+Proof.
+  intro Ho. destruct (wf_name_dest o Ho) as (front & -> & Hf & _).
+  destruct front as [|l0 f0] eqn:Ef.
+  - change (Forall scalar [46]). constructor; [unfold scalar; lia|constructor].
+  - rewrite <- Ef in *. rewrite to_dotted_nonroot.
+    + apply small_scalar, dotjoin_small, good_front_wf, Hf.
+    + rewrite Ef; discriminate.
+    + apply good_front_nonempty, Hf.
+Qed.
+
+Lemma join_wf o s n :
+  wf_name o -> Forall scalar s -> from_relative_dotted_string o s = Some n ->
+  wf_name n /\ (ends_with_dot s = false -> ascii_nodot o -> is_suffix (labels o) (labels n)).
+Proof.
+  intros Ho Hs H. unfold from_relative_dotted_string in H.
+  destruct s as [|x0 s0] eqn:Es.
+  { inversion H; subst. split; [assumption|]. intros _ _. exists []. reflexivity. }
+  rewrite <- Es in *.
+  assert (Hsne : s <> []) by (rewrite Es; discriminate). clear Es x0 s0.
+  destruct (ends_with_dot s) eqn:Ed.
+  { split; [eapply dotted_wf; eassumption|discriminate]. }
+  rewrite match_dot in H.
+  pose proof (to_dotted_scalar o Ho) as Hsuf.
+  assert (Hn : wf_name n).
+  { destruct (starts_dot (to_dotted_string o)); (eapply dotted_wf; [|exact H]); apply Forall_app; split;
+      try assumption. constructor; [unfold scalar; lia|assumption]. }
+  split; [assumption|]. intros _ Ha.
+  destruct (wf_name_dest o Ho) as (front & -> & Hf & H255).
+  unfold ascii_nodot in Ha. cbn [labels] in *. apply Forall_app in Ha as [Ha _]. fold ascii_label in Ha.
+  destruct front as [|l0 f0] eqn:Ef.
+  { destruct (wf_name_dest n Hn) as (fn & -> & _). exists fn. reflexivity. }
+  rewrite <- Ef in *.
+  assert (Hfne : front <> []) by (rewrite Ef; discriminate).
+  rewrite to_dotted_nonroot in H by (try assumption; apply good_front_nonempty, Hf).
+  assert (Esd : starts_dot (dotjoin front) = false).
+  { rewrite Ef in *. apply Forall_cons_iff in Ha as [Hl0 _]. apply Forall_cons_iff in Hf as [[Hne0 _] _].
+    unfold dotjoin. cbn [map concat]. destruct l0 as [|b l0]; [exfalso; apply Hne0; reflexivity|].
+    apply Forall_cons_iff in Hl0 as [[_ Hb] _]. cbn [app]. apply starts_dot_cons, Hb. }
+  rewrite Esd in H.
+  assert (Hnd : s ++ 46 :: dotjoin front <> [46]).
+  { destruct s as [|x [|y t]]; [contradiction| |discriminate].
+    cbn [app]. intro E. inversion E. }
+  destruct (dotted_inv _ n Hnd H) as (cs & Hsplit & _ & _ & Hl & _).
+  rewrite split_on_app_sep in Hsplit.
+  rewrite <- (app_nil_r (dotjoin front)) in Hsplit. rewrite split_on_dotjoin in Hsplit.
+  2: { rewrite Forall_forall in *. intros c Hc. apply ascii_label_nodot, Ha, Hc. }
+  2: { intros []. }
+  rewrite app_assoc in Hsplit. apply app_inj_tail in Hsplit as [Hcs _].
+  rewrite Hl, <- Hcs, map_app, (map_lab_ascii front) by (try assumption; apply good_front_wf, Hf).
+  exists (map lab (split_on 46 s)). rewrite app_assoc. reflexivity.
+Qed.
+
+(* ================= make_subdomain_of ================= *)
+
+Lemma make_subdomain_wf a o n :
+  wf_name a -> wf_name o -> make_subdomain_of a o = Some n ->
+  wf_name n /\ labels n = removelast (labels a) ++ labels o.
+Proof.
+  intros Ha Ho H. unfold make_subdomain_of in H. apply from_labels_wf in H; [exact H|].
+  apply Forall_app. split.
+  - destruct (wf_name_dest a Ha) as (front & -> & Hf & _). cbn [labels].
+    rewrite removelast_last. apply good_front_wf, Hf.
+  - apply wf_labels_all, Ho.
+Qed.
+
+(* ================= wire decoder ================= *)
+
+Lemma split_exact_spec {A} n : forall (l a b : list A),
+  split_exact n l = Some (a, b) -> l = a ++ b /\ length a = n.
+Proof.
+  induction n as [|n IH]; intros l a b H; cbn [split_exact] in H.
+  - inversion H; subst. split; reflexivity.
+  - destruct l as [|x t]; [discriminate|].
+    destruct (split_exact n t) as [[a' b']|] eqn:E; [|discriminate].
+    inversion H; subst. apply IH in E as [-> <-]. split; reflexivity.
+Qed.
+
+Lemma take_spec size c os c2 : take size c = Some (os, c2) ->
+  crest c = os ++ crest c2 /\ llen os = size.
+Proof.
+  unfold take. destruct (split_exact (N.to_nat size) (crest c)) as [[a b]|] eqn:E; [|discriminate].
+  intro H; inversion H; subst. cbn [crest]. apply split_exact_spec in E as [E1 E2].
+  split; [assumption|]. unfold llen. rewrite E2. apply N2Nat.id.
+Qed.
+
+Lemma next_u8_spec c b c1 : next_u8 c = Some (b, c1) -> crest c = b :: crest c1.
+Proof.
+  unfold next_u8. destruct (crest c) as [|x r]; [discriminate|].
+  intro H; inversion H; subst. reflexivity.
+Qed.
+
+Lemma name_finish_ok ls len c n c' : name_finish ls len c = Ok (n, c') ->
+  len <= 255 /\ n = {| labels := ls; nlen := len |}.
+Proof.
+  unfold name_finish, DOMAINNAME_MAX_LEN. destruct (N.leb_spec len 255) as [Hle|Hgt]; intro H; [|discriminate].
+  inversion H; subst. split; [assumption|reflexivity].
+Qed.
+
+Lemma Forall_skipn {A} (P : A -> Prop) n : forall l, Forall P l -> Forall P (skipn n l).
+Proof.
+  induction n as [|n IH]; intros l H; [exact H|].
+  destruct l as [|x t]; [exact H|]. cbn [skipn]. apply IH. apply Forall_cons_iff in H. tauto.
+Qed.
+
+Section NameLoopWf.
+  Variable rec : N -> res werr_kind (dname * cur).
+  Variable start : N.
+  Hypothesis Hrec : forall p other c', rec p = Ok (other, c') -> wf_name other.
+
+  Lemma name_loop_wf : forall lf c len acc n c',
+    Forall small (crest c) -> good_front acc -> len = sum_lens acc ->
+    name_loop rec start lf c len acc = Ok (n, c') -> wf_name n.
+  Proof.
+    induction lf as [|lf IH]; intros c len acc n c' Hc Hacc Hlen H; cbn [name_loop] in H; [discriminate|].
+    destruct (next_u8 c) as [[size c1]|] eqn:E1; [|discriminate].
+    apply next_u8_spec in E1. rewrite E1 in Hc. apply Forall_cons_iff in Hc as [Hsize Hc1].
+    unfold LABEL_MAX_LEN, DOMAINNAME_MAX_LEN in H.
+    destruct (size <=? 63) eqn:Ele.
+    - apply N.leb_le in Ele.
+      destruct (size =? 0) eqn:Ez.
+      + apply name_finish_ok in H as [H255 ->].
+        apply wf_name_intro; [exact Hacc| |exact H255].
+        rewrite sum_lens_app, sum_lens_root. lia.
+      + apply N.eqb_neq in Ez.
+        destruct (take size c1) as [[os c2]|] eqn:E2; [|discriminate].
+        apply take_spec in E2 as [Hc1' Hos].
+        destruct (255 <? len + 1 + size) eqn:Elong.
+        * apply N.ltb_lt in Elong. apply name_finish_ok in H as [H255 _]. lia.
+        * apply N.ltb_ge in Elong. rewrite Hc1' in Hc1. apply Forall_app in Hc1 as [Hos_small Hc2].
+          apply (IH c2 (len + 1 + size) (acc ++ [map lower os]) n c'); [exact Hc2| | |exact H].
+          -- apply Forall_app. split; [exact Hacc|]. constructor; [|constructor]. split.
+             ++ intro E. apply map_eq_nil in E. subst os. apply Ez. symmetry. exact Hos.
+             ++ split; [ll; lia|]. apply map_lower_wf, Hos_small.
+          -- rewrite sum_lens_app. cbn [sum_lens]. ll. lia.
+    - destruct (192 <=? size); [|discriminate].
+      destruct (next_u8 c1) as [[lo c2]|]; [|discriminate].
+      destruct (start <=? u16_be (N.land size 63) lo); [discriminate|].
+      destruct (rec (u16_be (N.land size 63) lo)) as [[other cx]| | |] eqn:Er; try discriminate.
+      apply Hrec in Er. destruct (wf_name_dest other Er) as (front & -> & Hf & _).
+      cbn [labels nlen] in H. apply name_finish_ok in H as [H255 ->].
+      rewrite app_assoc. apply wf_name_intro; [|subst len; rewrite !sum_lens_app; lia|exact H255].
+      apply Forall_app. split; assumption.
+  Qed.
+End NameLoopWf.
+
+Lemma wire_wf_gen bs : Forall small bs -> forall hops c n c',
+  Forall small (crest c) -> decode_name hops bs c = Ok (n, c') -> wf_name n.
+Proof.
+  intro Hbs. induction hops as [|h IH]; intros c n c' Hc H; cbn [decode_name] in H; [discriminate|].
+  eapply name_loop_wf; [| exact Hc | constructor | reflexivity | exact H].
+  intros p other cx Hp. eapply IH; [|exact Hp]. cbn [at_offset crest]. apply Forall_skipn, Hbs.
+Qed.
+
+Lemma wire_wf hops bs c n c' :
+  Forall (fun b => b < 256) bs -> Forall (fun b => b < 256) (crest c) ->
+  decode_name hops bs c = Ok (n, c') -> wf_name n.
+Proof. intros Hbs Hc H. exact (wire_wf_gen bs Hbs hops c n c' Hc H). Qed.
+
+(* ================= Zones::get ================= *)
+
+Lemma dname_eqb_eq a b : dname_eqb a b = true <-> a = b.
+Proof.
+  unfold dname_eqb. rewrite andb_true_iff, lleqb_eq, N.eqb_eq.
+  destruct a as [la na], b as [lb nb]; cbn [labels nlen]. split.
+  - intros [-> ->]. reflexivity.
+  - intro H; inversion H; auto.
+Qed.
+
+Lemma alookup_some {V} k (m : list (dname * V)) v : alookup dname_eqb k m = Some v -> In (k, v) m.
+Proof.
+  induction m as [|[k' v'] m IH]; cbn [alookup]; [discriminate|].
+  destruct (dname_eqb k k') eqn:E.
+  - apply dname_eqb_eq in E. subst k'. intro H; inversion H; subst. left. reflexivity.
+  - intro H. right. apply IH, H.
+Qed.
+
+Lemma alookup_none {V} k (m : list (dname * V)) v : alookup dname_eqb k m = None -> ~ In (k, v) m.
+Proof.
+  induction m as [|[k' v'] m IH]; cbn [alookup]; [intros _ []|].
+  destruct (dname_eqb k k') eqn:E; [discriminate|].
+  intros H [Hin|Hin]; [|exact (IH H Hin)].
+  inversion Hin; subst. assert (E' : dname_eqb k k = true) by (apply dname_eqb_eq; reflexivity). congruence.
+Qed.
+
+Lemma is_suffix_cons_inv {A} (p : list A) x t : is_suffix p (x :: t) -> p = x :: t \/ is_suffix p t.
+Proof.
+  intros [[|y pre] H]; [left; symmetry; exact H|]. right. cbn [app] in H. inversion H. exists pre. reflexivity.
+Qed.
+
+Lemma is_suffix_length {A} (p q : list A) : is_suffix p q -> (length p <= length q)%nat.
+Proof. intros [pre ->]. rewrite app_length. lia. Qed.
+
+Lemma zones_loop_spec {Z} (zs : list (dname * Z)) z : forall l,
+  zones_get_loop zs (suffixes l) = Some z ->
+  exists ls nm, is_suffix ls l /\ from_labels ls = Some nm /\ alookup dname_eqb nm zs = Some z /\
+    forall p nm', is_suffix p l -> (length ls < length p)%nat -> from_labels p = Some nm' ->
+                  alookup dname_eqb nm' zs = None.
+Proof.
+  induction l as [|x t IH]; cbn [suffixes zones_get_loop]; [discriminate|].
+  intro H.
+  assert (Hrest : zones_get_loop zs (suffixes t) = Some z ->
+                  (forall nm', from_labels (x :: t) = Some nm' -> alookup dname_eqb nm' zs = None) ->
+          exists ls nm, is_suffix ls (x :: t) /\ from_labels ls = Some nm /\ alookup dname_eqb nm zs = Some z /\
+            forall p nm', is_suffix p (x :: t) -> (length ls < length p)%nat -> from_labels p = Some nm' ->
+                          alookup dname_eqb nm' zs = None).
+  { intros Hz Hhead. destruct (IH Hz) as (ls & nm & [pre Hsuf] & Hfl & Hlk & Hmax).
+    exists ls, nm. split; [exists (x :: pre); rewrite Hsuf; reflexivity|]. split; [exact Hfl|]. split; [exact Hlk|].
+    intros p nm' Hp Hlen Hfp. apply is_suffix_cons_inv in Hp as [->|Hp]; [apply Hhead, Hfp|].
+    eapply Hmax; eassumption. }
+  destruct (from_labels (x :: t)) as [nm|] eqn:Efl.
+  - destruct (alookup dname_eqb nm zs) as [z0|] eqn:Elk.
+    + inversion H; subst z0. exists (x :: t), nm. split; [exists []; reflexivity|]. split; [exact Efl|]. split; [exact Elk|].
+      intros p nm' Hp Hlen _. apply is_suffix_length in Hp. lia.
+    + apply Hrest; [exact H|]. intros nm' E. inversion E; subst. exact Elk.
+  - apply Hrest; [exact H|]. intros nm' E. discriminate.
+Qed.
+
+Lemma zones_get_longest_suffix (Z : Type) (zs : list (dname * Z)) n z :
+  wf_name n -> zones_get zs n = Some z ->
+  exists k, In (k, z) zs /\ is_suffix (labels k) (labels n) /\
+    forall k' z', In (k', z') zs -> wf_name k' -> is_suffix (labels k') (labels n) ->
+                  (length (labels k') <= length (labels k))%nat.
+Proof.
+  intros _ H. unfold zones_get in H.
+  destruct (zones_loop_spec zs z (labels n) H) as (ls & nm & Hsuf & Hfl & Hlk & Hmax).
+  assert (Hl : labels nm = ls) by (apply from_labels_inv in Hfl; tauto).
+  exists nm. split; [apply alookup_some, Hlk|]. rewrite Hl. split; [exact Hsuf|].
+  intros k' z' Hin Hwf Hsuf'.
+  destruct (PeanoNat.Nat.le_gt_cases (length (labels k')) (length ls)) as [Hle|Hgt]; [exact Hle|].
+  exfalso. apply (alookup_none k' zs z'); [|exact Hin].
+  apply (Hmax (labels k') k' Hsuf' Hgt). apply from_labels_of_wf, Hwf.
 Qed.
